@@ -8,7 +8,7 @@ from verif import tracecheck
 from verif.mdibharness import MdibReplayer, apply_tok, canon
 from verif.tlc import MachineryError, json_lines, run_tlc
 
-SIM_H = ['vmd', 'ch', 'm1', 'dA', 'dB', 'pc', 'al', 'op', 'rt']
+SIM_H = ['vmd', 'ch', 'm1', 'dA', 'dB', 'pc', 'al', 'op', 'rt', 'asy', 'sco']
 SIM_CH = ['c1', 'c2']
 
 FAMILY = {
